@@ -131,6 +131,11 @@ class Writer(Suite):
             for _ in range(rng.choice([0, 0, 1, 1, 2])):
                 items.insert(rng.randrange(0, len(items) + 1), {"k": "unser", "how": rng.choice(UNSER)})
             out.append({"items": items, "close": rng.random() < 0.8})
+        if self.mode == "fallback":
+            # the fallback models serialise with default=str, so a typed message holding an arbitrary object
+            # IS serialisable there (as its repr): not an unserialisable message under that backend
+            for c in out:
+                c["items"] = [dict(it, how="dict-object") if it.get("how") == "typed-object" else it for it in c["items"]]
         return [dict(c, backend=self.mode) for c in out]
 
     # ------------------------------------------------------------------ implementation
